@@ -495,7 +495,12 @@ func runHistory(r *vlib.Run, ops []int, gfs vfs.FS, crash *crashfs.Session) (str
 					r.Add("forge_declined_contradicting_header", 1)
 					continue
 				}
-				return "forge-produces-nothing", fmt.Sprintf("step %d", i)
+				info, _ := w.gen.VerifGeneratorInfo(addr)
+				last := ref.CHeader{}
+				if len(h.signed) > 0 {
+					last = h.signed[len(h.signed)-1]
+				}
+				return "forge-produces-nothing", fmt.Sprintf("step %d: the header would be h%d mhg%d mhp%d, the last one handed on was h%d mhg%d mhp%d, the generator DB holds %+v", i, would.Height, would.MHG, would.MHP, last.Height, last.MHG, last.MHP, info)
 			}
 			nh := ref.CHeader{Gen: "g", Height: b.Header.Height, MHG: b.Header.MaxHeightGenerated, MHP: b.Header.MaxHeightPrevoted}
 			if b.Header.MaxHeightGenerated != h.largest {
